@@ -1279,9 +1279,7 @@ fn run_grpc(nlri_t: &Term, attrs_t: &[Term], vrps: &[(u32, u8, u8, u32)]) -> Opt
             let (active_tx, _active_rx) = tokio::sync::mpsc::unbounded_channel();
             let (kernel_tx, _kernel_rx) = tokio::sync::mpsc::unbounded_channel();
             let (bfd_tx, _bfd_rx) = tokio::sync::mpsc::unbounded_channel();
-            let mut g = Global::new(kernel_tx, bfd_tx);
-            g.asn = 65000;
-            g.router_id = Ipv4Addr::new(192, 0, 2, 254);
+            let g = Global::new(kernel_tx, bfd_tx);
             let global: GlobalHandle = Arc::new(tokio::sync::RwLock::new(g));
             let tables = Arc::new(TableManager::new(1));
             {
@@ -1296,6 +1294,21 @@ fn run_grpc(nlri_t: &Term, attrs_t: &[Term], vrps: &[(u32, u8, u8, u32)]) -> Opt
                 }
             }
             let svc = GrpcService::new(Arc::new(tokio::sync::Notify::new()), active_tx, global, tables);
+            // the real StartBgp (no listener: listen_port -1): sets the speaker's AS everywhere it is kept
+            if svc
+                .start_bgp(tonic::Request::new(api::StartBgpRequest {
+                    global: Some(api::Global {
+                        asn: 65000,
+                        router_id: "192.0.2.254".to_string(),
+                        listen_port: -1,
+                        ..Default::default()
+                    }),
+                }))
+                .await
+                .is_err()
+            {
+                return "(grpc panic)".to_string();
+            }
             let fam = api::Family { afi, safi };
             let path = api::Path { nlri: Some(nlri), family: Some(fam.clone()), pattrs, ..Default::default() };
             let add = svc
